@@ -8,7 +8,7 @@ import os
 import z3
 
 from pyvc.vals import Val, NONE, S, B, I as IV, K, LAT, TYP, sub, SeqV, Str, BASE, fresh, truthy, num, is_num, is_exc, St, Unsupported
-from specs.util import accumulator, carried_constants
+from specs.util import accumulator, carried_constants, is_generator_function
 from pyvc.engine import Exec, Bound
 from pyvc import engine as _eng
 from pyvc.repo import Repo
@@ -174,8 +174,48 @@ def is_failure(s, cr, mem):
 
 
 # ------------------------------------------------------------------ run_comparison
+def run_comparison_prologue():
+    """run_comparison written as an ORDINARY function that hands out a generator of the class: its body runs when the comparison is requested,
+    before the consumer asks for the first item, and no `finally` of the generator covers it (a generator that is closed or dropped before its
+    first next() never enters its body).  Contract of that prologue: it starts no worker.  Returns (name of the generator method the clauses of
+    the run are then stated on, unit info, obligations)."""
+    repo, spec, ex, st, selfv, fr, node, info, cfg, mem = mk(EQ + 'run_comparison', generator=False)
+    ded = fresh('dedicated', z3.BoolSort()); st.wr(cfg, 'compare_in_dedicated_process', B(ded))
+    gens = [n.name for n in repo.classes['Equalizer'][1].body if isinstance(n, ast.FunctionDef) and is_generator_function(n)]
+
+    def c_worker(ex_, s, args, kw, node_, star, dstar):
+        s.events.append(('worker.create',)); return [(s, ('val', NONE))]
+    for nm in ('_create_new_player_process', '_create_or_recycle_player_process_if_needed'):
+        ex.contracts['Equalizer.' + nm] = c_worker
+
+    def mk_gen(nm):
+        def c_gen(ex_, s, args, kw, node_, star, dstar):
+            g = s.alloc('iterator'); s.g['delegate'] = (nm, g); return [(s, ('val', g))]          # calling a generator function runs nothing
+        return c_gen
+    for nm in gens:
+        ex.contracts['Equalizer.' + nm] = mk_gen(nm)
+    paths = ex.block(node.body, st); obl = []; names = set()
+    for s, oc in paths:
+        d = s.g.get('delegate')
+        if oc[0] != 'return' or d is None:
+            if oc[0] in ('raise', 'exc'):
+                continue          # the request itself failed: no run was handed out
+            raise Unsupported('run_comparison is an ordinary function that does not hand out a generator of the class')
+        names.add(d[0])
+        obl.append(Obl('C13/run_comparison/request/hands_out_the_generator_of_the_run', ('C13', 'C08'), s, oc[1] == d[1], oc))
+        obl.append(Obl('C13/run_comparison/request/no_worker_is_started_before_the_first_comparison_is_requested', ('C13', 'C08'), s,
+                       z3.BoolVal(not any(ev[0] in ('worker.create', 'start') for ev in s.events)), oc))
+    if len(names) != 1:
+        raise Unsupported('run_comparison hands out different generators on different paths')
+    return names.pop(), info, obl
+
+
 def run_comparison(props=None):
-    repo, spec, ex, st, selfv, fr, node, info, cfg, mem = mk(EQ + 'run_comparison', generator=True)
+    _m, _c, node0, _i = Repo().find(EQ + 'run_comparison')
+    target, infos, pre = 'run_comparison', [], []
+    if not is_generator_function(node0):
+        target, info_p, pre = run_comparison_prologue(); infos = [info_p]
+    repo, spec, ex, st, selfv, fr, node, info, cfg, mem = mk(EQ + target, generator=True)
     keep = fresh('keep', z3.BoolSort()); st.wr(cfg, 'keep_results_in_comparison', B(keep))
     ids = fresh('ids', SeqV); src = st.sym_obj('recording_ids', 'iterator'); st.wr(selfv, 'recording_ids', src)
     st.g.update(yielded=[], yids=E, ybase=0)
@@ -248,7 +288,7 @@ def run_comparison(props=None):
         return dict(seq=ids, bind=bind, havoc=[t_it, t_id, 'play_and_compare_result', 'playback', 'recorded_result', 'playback_result', 'comparison', 'ex'],
                     havoc_state=havoc_state, inv=inv, per_iteration=per_iteration, name='loop.recordings')
     spec.loop = loop
-    paths = ex.block(node.body, st); obl = []; U = 'run_comparison'
+    paths = ex.block(node.body, st); obl = list(pre); U = 'run_comparison'
     for a, s_, c, oc_ in ex.obligations:
         obl.append(Obl('C08/%s/%s' % (U, a), ('C08', 'C19', 'C13') if 'honours_close' in a else ('C08', 'C19'), s_, c, oc_))
     for s, oc in paths:
@@ -263,7 +303,7 @@ def run_comparison(props=None):
             callee = [t for t in s.trace if t['kind'] in ('Callee', 'UserHook') and t['outcome'][0] == 'raise']
             cl = z3.BoolVal(not s.g.get('ignored_close')) if closed else z3.Or(*[z3.And(oc[1] == t['outcome'][1], z3.Not(is_exc(t['outcome'][1]))) for t in callee]) if callee else z3.BoolVal(False)
             obl.append(Obl('C08/%s/abnormal_exit_only_by_close_or_interrupt' % U, ('C08', 'C13'), s, cl, oc))
-    return [info], obl, {'paths': len(paths), 'forks': ex.forks}
+    return infos + [info], obl, {'paths': len(paths), 'forks': ex.forks}
 
 
 # ------------------------------------------------------------------ _play_and_compare_recording (the worker body, in-process)
